@@ -3,7 +3,7 @@
    (Unix ms) in overflow mode m; the right-hand sides are arithmetic on unbounded N (mathematical integers):
    the theorem says the Rust arithmetic agrees with them on the whole u8/u64/u128 range and never aborts.
    Quantified over every bundle in the decoder's image (C07_decoded_shape).  Statements only. *)
-From BP7 Require Import Base.Prelude Gen.Consts Model.Types Model.Validate Model.Ops Model.Api Model.WfExt Proofs.DecodeImage Proofs.OpsProofs Proofs.ApiProofs Proofs.TableProofs.
+From BP7 Require Import Base.Prelude Gen.Consts Model.Types Model.Validate Model.Ops Model.Api Model.WfExt Proofs.DecodeImage Proofs.OpsProofs Proofs.ApiProofs Proofs.TieBase Proofs.TieHop.
 
 Theorem C08_update_exact : forall m clock node rt b,
   decodable_shape b = true -> MS1970_TO2K <= clock -> rt < two128 ->
